@@ -615,7 +615,7 @@ def plan_key_semantics(ctx):
     # one step of every kind from every valid tree x every pattern of expired / live nodes
     futs += key_ind_jobs(ctx, 4 if q else 6, 2 if q else 6, limit=120 if q else 3000)
     # the query forms from start states of six and seven (thorough: also eight) nodes x every expiry pattern
-    futs += key_indq_jobs(ctx, 6, 7, 3 if q else 10, limit=450 if q else None)
+    futs += key_indq_jobs(ctx, 6, 7, 4 if q else 10, limit=900 if q else None)
     if not q:
         futs += key_indq_jobs(ctx, 8, 8, 6, limit=4000)
     futs += key_scale_jobs(ctx, colls, "ABCDG", deep=20000 if q else 60000)
